@@ -20,12 +20,12 @@ def api_result(text, bg, mode, premium):
     return _API_MEMO[k]
 
 
-def _cause(sheet, idx, item, adjusted_sels, ob, eff=None):
+def _cause(sheet, idx, item, adjusted_sels, ob, eff=None, ignore_drop=False):
     """Structural cause of a report/file disagreement for rule #idx (used only to key known findings)."""
     sel = sheet.rules[idx][0]
     tv = item.last("color")
     tval = tv[1] if tv else ""
-    if ob["out_text"] is None:
+    if ob["out_text"] is None and not ignore_drop:
         junk = any(any(isinstance(d, str) and not d.startswith("/*") for d in it.decls) for _, it, _ in sheet.rules)
         if junk and "Can not serialize <ParseError" in ob["res"]["stderr"]:
             return "file_dropped/invalid_declaration_in_reserialised_rule"
@@ -146,7 +146,8 @@ def judge_obs(sheet, settings, ob):
                 api_rgb = O.opaque_rgb(api[0], bg_rgb) if isinstance(api[0], str) else None
                 rep_rgb = O.opaque_rgb(after, bg_rgb)
                 if api_rgb is not None and rep_rgb is not None and api_rgb != rep_rgb:
-                    cause = cause or _cause(sheet, i, it, adjusted_sels, ob, eff)
+                    # the API disagreement is about what the rule was tuned *from*, whether or not the file was written
+                    cause = _cause(sheet, i, it, adjusted_sels, ob, eff, ignore_drop=True)
                     v("reported_differs_from_api/" + cause,
                       "%s (%s on %s): reported %s, ColorPair(...).make_readable(mode=%d, very_readable=%s) returns %r"
                       % (sel, t_in, b_in, after, mode, premium, api[0]), observed=after, expected=api[0])
@@ -179,7 +180,8 @@ def judge_obs(sheet, settings, ob):
             else:
                 m = wcag.meets(wcag.ratio(t_rgb, bg_rgb), target)
                 if m is False and total == len(coloured):
-                    v("accessible_below_target/" + it.kind, "%s (%s on %s in the written file) counted as already readable, ratio %.3f < %.1f"
+                    c2 = _cause(sheet, i, it, adjusted_sels, ob, t_eff)
+                    v("accessible_below_target/" + (c2 if ("shared_property_readjusted" == c2 or c2.startswith("file_dropped/invalid")) else it.kind), "%s (%s on %s in the written file) counted as already readable, ratio %.3f < %.1f"
                       % (sel, t_eff, b_in, wcag.ratio(t_rgb, bg_rgb), target))
     if total == len(coloured) and accessible_n != counts["accessible"]:
         v("accounting/accessible_count", "%d rules are in neither list but 'already readable' says %d" % (accessible_n, counts["accessible"]))
@@ -215,7 +217,7 @@ def chunk(job):
         vs = judge_obs(sheet, st, ob)
         n += 1
         rules += len(sheet.rules)
-        if vs and len(out) < 10:
+        if vs and len(out) < 80:
             out += vs
     return n, rules, out
 
